@@ -106,7 +106,8 @@ impl LinearLocatorState {
             line_start,
             line_end,
             line_number,
-            cursor: line_start,
+            // offset 0 is a valid position even when a BOM precedes the first column
+            cursor: TextSize::default(),
             is_ascii,
         }
     }
@@ -213,7 +214,11 @@ impl<'a> LinearLocator<'a> {
             };
             (column, Some(state))
         } else {
-            let column = (offset - self.state.line_start).to_u32();
+            // an offset in front of a leading BOM is column 0, like the one right after it
+            let column = offset
+                .checked_sub(self.state.line_start)
+                .unwrap_or_default()
+                .to_u32();
             (column, None)
         };
         let state = new_state.as_ref().unwrap_or(&self.state);
